@@ -20,6 +20,7 @@ func main() {
 	only := flag.String("only", "", "case id")
 	budget := flag.Duration("budget", 0, "internal time budget")
 	worker := flag.Bool("worker", false, "run as crash-isolated worker (internal)")
+	racePass := flag.Bool("race-pass", false, "run the free-running supporting pass (binary built with -race; internal)")
 	flag.Usage = func() { fmt.Fprintln(os.Stderr, "usage: check [flags] <ID>") }
 	flag.Parse()
 	if flag.NArg() != 1 {
@@ -27,6 +28,13 @@ func main() {
 		os.Exit(2)
 	}
 	id := flag.Arg(0)
+	if *racePass {
+		f, ok := props.RacePass[id]
+		if !ok {
+			os.Exit(2)
+		}
+		os.Exit(f())
+	}
 	if *worker {
 		w, ok := props.Workers[id]
 		if !ok {
